@@ -117,6 +117,12 @@ func RunHistory(id int, seed int64) (*History, []Problem) {
 	var markers sync.Map // ver -> *marker
 	var sendID int64
 	pids := []string{"p1", "p2", "p3"}
+	// in every fourth history all pipelines share one formatter (and nothing is removed together with its nodes):
+	// concurrent registrations / removals then update the same reference count
+	sharedMode := id%4 == 1
+	if sharedMode {
+		b.RegisterNode("shared-fm", &leaf{eventlogger.NodeTypeFormatter})
+	}
 	doReg := func(r *rand.Rand) {
 		ver := int(atomic.AddInt64(&verc, 1))
 		m := &marker{ver: ver, seen: map[int]int{}}
@@ -128,7 +134,11 @@ func RunHistory(id int, seed int64) (*History, []Problem) {
 		if err := b.RegisterNode(ids[0], m); err != nil {
 			problem("C04", "RegisterNode failed: %v", err)
 		}
-		b.RegisterNode(ids[1], &leaf{eventlogger.NodeTypeFormatter})
+		if sharedMode {
+			ids[1] = "shared-fm"
+		} else {
+			b.RegisterNode(ids[1], &leaf{eventlogger.NodeTypeFormatter})
+		}
 		b.RegisterNode(ids[2], &leaf{eventlogger.NodeTypeSink})
 		pid := pids[r.Intn(len(pids))]
 		n := logInv(rec{"kind": "reg", "pid": pid, "ver": ver})
@@ -186,7 +196,7 @@ func RunHistory(id int, seed int64) (*History, []Problem) {
 					doReg(r)
 				case x < 8:
 					pid := pids[r.Intn(len(pids))]
-					if r.Intn(2) == 0 {
+					if sharedMode || r.Intn(2) == 0 {
 						n := logInv(rec{"kind": "rem", "pid": pid})
 						b.RemovePipeline("t", eventlogger.PipelineID(pid))
 						logResp(n, rec{})
@@ -239,6 +249,20 @@ func RunHistory(id int, seed int64) (*History, []Problem) {
 		case err == nil:
 		case errors.Is(err, eventlogger.ErrNodeNotFound):
 			res = "notfound"
+		case strings.Contains(err.Error(), "still in use"):
+			res = "inuse"
+		default:
+			res = "error: " + err.Error()
+		}
+		logResp(n, rec{"res": res})
+	}
+	if sharedMode {
+		// the shared node is in use exactly while some pipeline is registered
+		n := logInv(rec{"kind": "sprobe"})
+		err := b.RemoveNode(context.Background(), "shared-fm")
+		res := "ok"
+		switch {
+		case err == nil:
 		case strings.Contains(err.Error(), "still in use"):
 			res = "inuse"
 		default:
@@ -650,6 +674,122 @@ func OverwriteStress(seed int64, d time.Duration) []Problem {
 	}
 	close(stop)
 	wg.Wait()
+	return problems
+}
+
+// DenyStress: several clients register the same fresh id with DenyOverwrite at once. DenyOverwrite is sticky
+// (Registry.tla: DenyStickyNode / DenyStickyPipeline): whatever the order, exactly one call succeeds, the others are
+// refused, and what is registered afterwards is the winner's node / pipeline.
+func DenyStress(seed int64, rounds int) []Problem {
+	var problems []Problem
+	b, _ := eventlogger.NewBroker()
+	b.RegisterNode("fmt", &leaf{eventlogger.NodeTypeFormatter})
+	const callers = 8
+	for i := 0; i < rounds && len(problems) < 4; i++ {
+		id := eventlogger.NodeID(fmt.Sprintf("deny-%d", i))
+		pid := eventlogger.PipelineID(fmt.Sprintf("denyp-%d", i))
+		sinks := make([]*countSink, callers)
+		var start, done sync.WaitGroup
+		start.Add(1)
+		nodeErr := make([]error, callers)
+		for k := 0; k < callers; k++ {
+			sinks[k] = &countSink{}
+			done.Add(1)
+			go func(k int) {
+				defer done.Done()
+				start.Wait()
+				nodeErr[k] = b.RegisterNode(id, sinks[k], eventlogger.WithNodeRegistrationPolicy(eventlogger.DenyOverwrite))
+			}(k)
+		}
+		start.Done()
+		done.Wait()
+		okN, winner := 0, -1
+		for k, e := range nodeErr {
+			if e == nil {
+				okN++
+				winner = k
+			}
+		}
+		if okN != 1 {
+			problems = append(problems, Problem{"C07", fmt.Sprintf("%d of %d concurrent RegisterNode(%q, DenyOverwrite) calls succeeded: DenyOverwrite must refuse every registration after the first", okN, callers, id)})
+			continue
+		}
+		// pipelines: the same with the pipeline policy; the registered pipeline must then deliver to the winner's sink only
+		pipeErr := make([]error, callers)
+		start.Add(1)
+		for k := 0; k < callers; k++ {
+			done.Add(1)
+			go func(k int) {
+				defer done.Done()
+				start.Wait()
+				pipeErr[k] = b.RegisterPipeline(eventlogger.Pipeline{PipelineID: pid, EventType: "deny", NodeIDs: []eventlogger.NodeID{"fmt", id}}, eventlogger.WithPipelineRegistrationPolicy(eventlogger.DenyOverwrite))
+			}(k)
+		}
+		start.Done()
+		done.Wait()
+		okP := 0
+		for _, e := range pipeErr {
+			if e == nil {
+				okP++
+			}
+		}
+		if okP != 1 {
+			problems = append(problems, Problem{"C07", fmt.Sprintf("%d of %d concurrent RegisterPipeline(%q, DenyOverwrite) calls succeeded", okP, callers, pid)})
+		}
+		b.Send(context.Background(), "deny", i)
+		for k, sk := range sinks {
+			if n := sk.n.Load(); (k == winner && n != 1) || (k != winner && n != 0) {
+				problems = append(problems, Problem{"C07", fmt.Sprintf("after the race for %q the Send reached sink %d %d times (winner %d): the registered node is not the one whose registration succeeded", id, k, n, winner)})
+				break
+			}
+		}
+		if err := b.RemovePipeline("deny", pid); err != nil {
+			problems = append(problems, Problem{"C07", "RemovePipeline: " + err.Error()})
+		}
+	}
+	return problems
+}
+
+// SharedRemoveStress: pipelines that share nodes are removed by concurrent RemovePipeline calls; at quiescence every
+// node must be removable (reference counts back at zero) - the outcome of any sequential order.
+func SharedRemoveStress(seed int64, rounds int) []Problem {
+	var problems []Problem
+	const pipes, shared = 8, 6
+	for i := 0; i < rounds && len(problems) < 4; i++ {
+		b, _ := eventlogger.NewBroker()
+		var ids []eventlogger.NodeID
+		for n := 0; n < shared; n++ {
+			id := eventlogger.NodeID(fmt.Sprintf("f%d", n))
+			b.RegisterNode(id, &leaf{eventlogger.NodeTypeFilter})
+			ids = append(ids, id)
+		}
+		b.RegisterNode("fmt", &leaf{eventlogger.NodeTypeFormatter})
+		b.RegisterNode("sink", &leaf{eventlogger.NodeTypeSink})
+		ids = append(ids, "fmt", "sink")
+		for p := 0; p < pipes; p++ {
+			if err := b.RegisterPipeline(eventlogger.Pipeline{PipelineID: eventlogger.PipelineID(fmt.Sprintf("p%d", p)), EventType: "t", NodeIDs: ids}); err != nil {
+				return append(problems, Problem{"C04", "setup: " + err.Error()})
+			}
+		}
+		var start, done sync.WaitGroup
+		start.Add(1)
+		for p := 0; p < pipes; p++ {
+			done.Add(1)
+			go func(p int) {
+				defer done.Done()
+				start.Wait()
+				b.RemovePipeline("t", eventlogger.PipelineID(fmt.Sprintf("p%d", p)))
+			}(p)
+		}
+		start.Done()
+		done.Wait()
+		for _, id := range ids {
+			if err := b.RemoveNode(context.Background(), id); err != nil {
+				problems = append(problems, Problem{"C04", fmt.Sprintf("after %d concurrent RemovePipeline calls removed every pipeline, node %q cannot be removed (%v): no sequential order of the removals leaves it in use", pipes, id, err)})
+				break
+			}
+		}
+	}
 	return problems
 }
 
